@@ -283,7 +283,7 @@ func init() {
 		Plan: func(tier string, seed int64) []fw.Batch {
 			n := 12
 			if tier == "thorough" {
-				n = 200
+				n = 800
 			}
 			bs := batches("archives", 16, n, 3000)
 			bs = append(bs, fw.Batch{Name: "known-gpkg", Kind: "known", TimeoutS: 300})
